@@ -55,6 +55,7 @@ class Profile:
         self.effect_same_fluent_bias = True
         self.always_defined_numeric = False
         self.const_atoms = False  # constant-only comparison atoms (1 <= 2)
+        self.exists_eq_bias = False  # exists x. (x == term and ...) shapes
         for k, v in kw.items():
             if not hasattr(self, k):
                 raise AttributeError(k)
@@ -407,6 +408,22 @@ class Gen:
             vn = scope["vars"][-1][0]  # shadowing
         sc2 = dict(scope)
         sc2["vars"] = scope["vars"] + [(vn, vt)]
+        if k == "exists" and self.p.exists_eq_bias and self.b(0.5):
+            # equality between the bound variable and a term that may or may not mention it,
+            # of the variable's type, a subtype or a supertype
+            base = vt[1]
+            if self.b(0.3):
+                for tn, par in self.types:
+                    if tn == base and par is not None:
+                        base = par
+            t = self.obj_term(base, dict(sc2, allow_obj_fluent=True), 2)
+            if t is not None:
+                eq = ["=", ["var", vn, vt], t] if self.b(0.5) else ["=", t, ["var", vn, vt]]
+                rest = [self.bool_expr(sc2, depth - 1) for _ in range(self.i(1, 2))]
+                items = [eq] + rest
+                if self.b(0.3):
+                    items = rest + [eq]
+                return ["exists", [[vn, vt]], ["and"] + items]
         return [k, [[vn, vt]], self.bool_expr(sc2, depth - 1)]
 
     def expr_of_type(self, t, scope, depth):
